@@ -12,7 +12,7 @@ import (
 )
 
 func init() {
-	register(&Property{ID: "C03", Run: runC03, Explain: an.Explanation{
+	register(&Property{ID: "C03", Technique: "abstract interpretation of the device finder over a finite feature abstraction (exact decision-tree extraction) compared with reference tables; who-may-construct and type-level coverage rules", Run: runC03, Explain: an.Explanation{
 		Text: "Decides the decision structure behind device recognition. R1: the complete decision tree of " +
 			"devicefinder.(*Default).Find (with findDevice, deviceFromDB, deviceByAddrs, deviceByLocalAddr, " +
 			"newDeviceResult, authenticatedResult, authenticate and supportsDeviceID interpreted abstractly, the " +
